@@ -282,8 +282,10 @@ impl Payload for Txt {
 /// mode: 0 = `{}`, 1 = `{:#}`, 2 = `{:?}`, 3 = `{:#?}`
 pub fn txt_text(tid: u64, val: u64, mode: u8) -> String {
     let mut r = crate::rng::Rng::derive(tid, val, mode as u64 + 11);
-    const ALPHA: [&str; 16] = [
-        "a", "b", "|", "`", "-", " ", "  ", "|   ", "`-- ", "|-- ", "é", "x", "    ", "7", "\r", "\t",
+    // besides the guide strings themselves: 2-, 3- and 4-byte characters, among them some whose low
+    // byte alone would be an ASCII letter or a line feed (U+0142, U+0161, U+010A)
+    const ALPHA: [&str; 21] = [
+        "a", "b", "|", "`", "-", " ", "  ", "|   ", "`-- ", "|-- ", "é", "x", "    ", "7", "\r", "\t", "ł", "š", "Ċ", "€", "𝄞",
     ];
     let nlines = match r.below(10) {
         0..=3 => 1,
